@@ -95,7 +95,7 @@ fn run(args: &Args) -> MosResult<()> {
     let mos_toml = mos_toml_path(None, &Path::new("."))?;
     let (root, cfg) = match mos_toml {
         Some(path) => {
-            log::trace!("Using configuration from: {}", &path.to_str().unwrap());
+            log::trace!("Using configuration from: {}", path.to_string_lossy());
             let toml = fs::read_to_string(&path)?;
             (
                 path.parent().unwrap().to_path_buf(),
